@@ -484,6 +484,9 @@ class SymNum:
 
     # -- comparisons --------------------------------------------------------
     def _cmp(self, o, f):
+        if isinstance(o, float) and o in (math.inf, -math.inf):
+            # a finite number against +-infinity (sentinels such as float("inf") in min/max folds)
+            return f(0, 1) if o > 0 else f(1, 0)
         o = _lift(o)
         if o is NotImplemented:
             return NotImplemented
